@@ -9,7 +9,8 @@
 //!  * recorded concurrent histories (`hist` .. `end`): 1-4 dispatching threads hammered the real pool
 //!    at generation time; the event history is the case, the Lean driver is the trace acceptor;
 //!  * live concurrent runs with the drivers' retry loop (`conc`: raw pool, `prx`: several `Proactor`s
-//!    sharing one pool, `Asyncify` ops, panics resumed at `pop`): totals are schedule independent.
+//!    sharing one pool, `Asyncify` ops, panics resumed at `pop`, `burst`: one `Proactor` with a small
+//!    ring, far more jobs than ring + pool pushed without polling): totals are schedule independent.
 //!
 //! Monitors (implementation only): every accepted job ran exactly once, its result / panic reached
 //! the submitter with the right payload, a refused job came back intact and never ran, accepted jobs
@@ -1082,6 +1083,61 @@ fn exec_prx(w: &[&str], salt: u64, ex: &mut Exec) -> String {
     if scripts.is_empty() || limit == 0 || scripts.iter().flatten().any(|s| s.kind == b'r') {
         return "bad-op".into();
     }
+    run_prx(limit, tmo, dt, scripts, None, salt, ex)
+}
+
+/// `burst <limit> <timeout_ms> <u|p> <ring capacity> <jobs> <microseconds>`: one `Proactor` with a small ring;
+/// all jobs are pushed back-to-back without a poll in between (more than the completion queue and the
+/// pool can hold), then polled to completion.  The results travel back on the driver's completion channel,
+/// which nobody drains during the burst: every job must still run once, every result must arrive and the
+/// push loop must return (`C17:burst-stuck`).
+fn exec_burst(w: &[&str], salt: u64, ex: &mut Exec) -> String {
+    let (Ok(limit), Ok(tmo), Ok(cap), Ok(n), Ok(dur)) =
+        (w[1].parse::<usize>(), w[2].parse::<u64>(), w[4].parse::<u32>(), w[5].parse::<usize>(), w[6].parse::<u64>())
+    else {
+        return "bad-op".into();
+    };
+    let dt = match w[3] {
+        "u" => DriverType::IoUring,
+        "p" => DriverType::Poll,
+        _ => return "bad-op".into(),
+    };
+    if limit == 0 || cap == 0 || n == 0 || n + 300 >= MAXJOBS {
+        return "bad-op".into();
+    }
+    ex.tag(format!("burst:cap={cap}"));
+    let script: Vec<Spec> = (0..n).map(|_| Spec { kind: b'v', dur_us: dur }).collect();
+    run_prx(limit, tmo, dt, vec![script], Some(cap), salt, ex)
+}
+
+/// Wait for a burst: stuck = nothing observable (no job begins or ends) for 3 s while the runtime
+/// thread has not returned.  The thread cannot be stopped, so the run is abandoned afterwards.
+fn watch_burst(sh: &Arc<Shared>, done: &dyn Fn() -> bool, what: &str) -> Option<(String, String)> {
+    let mut last = sh.progress();
+    let mut since = Instant::now();
+    loop {
+        if done() {
+            return None;
+        }
+        let n = sh.progress();
+        if n != last {
+            last = n;
+            since = Instant::now();
+        } else if since.elapsed() > Duration::from_secs(3) {
+            ABANDONED.store(true, SeqCst);
+            let l = sh.log.lock().unwrap_or_else(|p| p.into_inner());
+            let begun = l.ev.iter().filter(|e| matches!(e, Ev::Begin(..))).count();
+            let ended = l.ev.iter().filter(|e| matches!(e, Ev::End(..))).count();
+            return Some((
+                "C17:burst-stuck".to_string(),
+                format!("{what}: the runtime thread did not return and nothing moved for 3 s ({begun} jobs begun, {ended} ended, {} pool threads inside a job)", l.running),
+            ));
+        }
+        thread::sleep(Duration::from_micros(200));
+    }
+}
+
+fn run_prx(limit: usize, tmo: u64, dt: DriverType, scripts: Vec<Vec<Spec>>, capacity: Option<u32>, salt: u64, ex: &mut Exec) -> String {
     let sh = Shared::new(salt);
     let pool = AsyncifyPool::new(limit, Duration::from_millis(tmo));
     let mut base = 0usize;
@@ -1092,11 +1148,12 @@ fn exec_prx(w: &[&str], salt: u64, ex: &mut Exec) -> String {
         let first = base;
         base += script.len();
         hs.push(thread::spawn(move || -> Result<Vec<(usize, Out)>, String> {
-            let mut driver = Proactor::builder()
-                .driver_type(dt)
-                .reuse_thread_pool(pool)
-                .build()
-                .map_err(|e| format!("build: {e}"))?;
+            let mut builder = Proactor::builder();
+            builder.driver_type(dt).reuse_thread_pool(pool);
+            if let Some(cap) = capacity {
+                builder.capacity(cap);
+            }
+            let mut driver = builder.build().map_err(|e| format!("build: {e}"))?;
             barrier.wait();
             let mut keys = vec![];
             for (i, sp) in script.iter().enumerate() {
@@ -1144,7 +1201,16 @@ fn exec_prx(w: &[&str], salt: u64, ex: &mut Exec) -> String {
         }));
     }
     let mut finished = HashMap::new();
-    if let Some((sig, detail)) = watch(&pool, &sh, &|| hs.iter().all(|h| h.is_finished()), &|| hs.iter().filter(|h| !h.is_finished()).count(), limit, tmo) {
+    if let Some(cap) = capacity {
+        let what = format!(
+            "burst of {} blocking jobs, ring capacity {cap}, thread limit {limit}, {} driver",
+            scripts[0].len(),
+            if dt == DriverType::IoUring { "io_uring" } else { "polling" }
+        );
+        if let Some((sig, detail)) = watch_burst(&sh, &|| hs.iter().all(|h| h.is_finished()), &what) {
+            ex.fail(sig, detail);
+        }
+    } else if let Some((sig, detail)) = watch(&pool, &sh, &|| hs.iter().all(|h| h.is_finished()), &|| hs.iter().filter(|h| !h.is_finished()).count(), limit, tmo) {
         ex.fail(sig, format!("{detail} (inside Proactor::push -> push_blocking)"));
     }
     for h in hs {
@@ -1280,13 +1346,14 @@ fn exec_inner(case: &Case) -> Exec {
     let first: Vec<&str> = case.lines.first().map(|l| l.split_whitespace().collect()).unwrap_or_default();
     match first.first().copied() {
         Some("hist") => exec_hist(case, &mut ex),
-        Some("conc") | Some("prx") => {
+        Some("conc") | Some("prx") | Some("burst") => {
             let salt = checksum(case.name.as_bytes());
             for line in &case.lines {
                 let w: Vec<&str> = line.split_whitespace().collect();
                 let out = match w.first().copied() {
                     Some("conc") if w.len() >= 4 => exec_conc(&w, salt, &mut ex),
                     Some("prx") if w.len() >= 5 => exec_prx(&w, salt, &mut ex),
+                    Some("burst") if w.len() == 7 => exec_burst(&w, salt, &mut ex),
                     _ => "bad-op".into(),
                 };
                 ex.out.push(out);
@@ -1491,6 +1558,24 @@ fn generate_inner(tier: &str, rng: &mut Rng) -> Vec<Case> {
             .collect();
         let (op, extra) = if i % 3 == 2 { ("prx", if rng.chance(1, 2) { "u " } else { "p " }) } else { ("conc", "") };
         cases.push(Case { name: format!("strand/{i}"), lines: vec![conc_line(op, limit, tmo, extra, &scripts)] });
+    }
+    // 5. bursts through one Proactor with a small ring, pushed without polling (last: a stuck burst
+    //    leaves its runtime thread behind and the rest of the run would be abandoned)
+    let mut k = 0;
+    for &cap in &[1u32, 2, 8] {
+        for &limit in &[1usize, 2, 16] {
+            for dt in ["u", "p"] {
+                let reps = if thorough { 4 } else { 1 };
+                for _ in 0..reps {
+                    let room = 2 * cap.next_power_of_two() as usize + limit;
+                    let n = (room * rng.range(4, 8) as usize).clamp(48, 600);
+                    let dur = *rng.pick(&[0u64, 0, 20, 200]);
+                    let tmo = *rng.pick(&[1000u64, 5000]);
+                    cases.push(Case { name: format!("burst/{k}"), lines: vec![format!("burst {limit} {tmo} {dt} {cap} {n} {dur}")] });
+                    k += 1;
+                }
+            }
+        }
     }
     cases
 }
